@@ -1422,3 +1422,10 @@ Theorem side_condition_exact ps :
 Proof.
   intros V NC. split; [apply side_condition_necessary; exact NC|apply conforms; exact V].
 Qed.
+
+(** * Conformance of the regenerated source rendering (GenLexer.v), via GenLexerEq *)
+From TG.Proofs Require GenLexerEq.
+Lemma conforms_source ps :
+  forallb valid_piece ps = true -> not_merged ps = true ->
+  GenLexerEq.gen_lex_text (render ps) = map GenLexerEq.hand_view (expected_tokens ps).
+Proof. intros V M. rewrite GenLexerEq.gen_lex_text_eq, (conforms_tokens ps V M). reflexivity. Qed.
